@@ -210,7 +210,7 @@ func AnyFamily(r *rt.Rand) string { return families[r.Intn(len(families))] }
 func (s *Store) KeyLiterals(r *rt.Rand) []string {
 	set := map[string]bool{"": true, "a": true, "k": true, "zz": true}
 	for _, p := range s.Pairs {
-		if !printable(p.K) {
+		if !literalSafe(p.K) {
 			continue
 		}
 		set[p.K] = true
@@ -228,6 +228,18 @@ func (s *Store) KeyLiterals(r *rt.Rand) []string {
 	}
 	sort.Strings(out)
 	return out
+}
+
+// literalSafe: bytes that can stand inside a quoted literal - also bytes >= 0x80 (the lexer
+// is byte based), so that keys such as "a\xff" become literals of prefix and range tests.
+func literalSafe(s string) bool {
+	for i := 0; i < len(s); i++ {
+		c := s[i]
+		if c < 0x20 || c == 0x7f || c == '\'' || c == '"' || c == '`' {
+			return false
+		}
+	}
+	return true
 }
 
 // printable: usable inside a quoted literal (no quote characters at all so
